@@ -581,7 +581,26 @@ MsgNestBody(d) ==
 \* all different (MsgIdAbs mixes two fingerprints; it does not join strings).
 MsgSplitStrings == << "Archivenoun", "Deleteverb", "mm" >>
 MsgFamSplit == UNION {{[kind |-> "split", s |-> k, at |-> i] : i \in 1..Len(MsgSplitStrings[k])} : k \in 1..Len(MsgSplitStrings)}
-MsgFamMeaning(d) == IF d.kind = "split" THEN MsgSuffixStr(MsgSplitStrings[d.s], d.at + 1) ELSE ""
+\* The attributes of {msg} as inputs: the meaning is the TEXT the attribute
+\* denotes (its quotes removed and its escapes resolved), whatever characters it
+\* holds; desc and hidden are no inputs at all.  The same texts serve as
+\* descriptions in the binding.
+MsgAttrTexts == << "verb \"open\"", "a\\b", "C:\\temp\\\"x\"", "two\nlines", "it's", "{x} {lb}", " padded ",
+                   "tab\there", "Verb", "v", "ünï" >>
+MsgFamAttr == {[kind |-> "attr", i |-> i] : i \in 1..Len(MsgAttrTexts)}
+MsgFamMeaning(d) ==
+  IF d.kind = "split" THEN MsgSuffixStr(MsgSplitStrings[d.s], d.at + 1)
+  ELSE IF d.kind = "attr" THEN MsgAttrTexts[d.i]
+  ELSE ""
+
+\* the spelling of a text inside a double-quoted attribute (what a parser that
+\* does not resolve escapes would take the meaning to be)
+RECURSIVE MsgQuotedFrom(_, _)
+MsgQuotedFrom(s, i) ==
+  IF i > Len(s) THEN ""
+  ELSE LET ch == MsgCh(s, i) IN
+       (IF ch = "\"" THEN "\\\"" ELSE IF ch = "\\" THEN "\\\\" ELSE ch) \o MsgQuotedFrom(s, i + 1)
+MsgQuoted(s) == MsgQuotedFrom(s, 1)
 
 \* Where a message can sit in a template.  Names, placeholder string and id
 \* are functions of the message alone: none of these may matter.
@@ -602,6 +621,7 @@ MsgFamBody(d) ==
   ELSE IF d.kind = "nested" THEN MsgNestBody(d)
   ELSE IF d.kind = "split" THEN << MText(MsgPrefixStr(MsgSplitStrings[d.s], d.at)) >>
   ELSE IF d.kind = "bytes" THEN << [k |-> "btext", bytes |-> MsgByteTexts[d.i]] >>
+  ELSE IF d.kind = "attr" THEN << MText("Open "), MPrint(MsgVar("x")) >>
   ELSE << [k |-> "plural", e |-> MsgPluralSubjects[d.subj],
            cases |-> [i \in 1..Len(d.cb) |-> MCase(MsgCaseSets[d.cs][i], MsgPick(MsgInnerPool, d.cb[i]))],
            dflt |-> MsgPick(MsgInnerPool, d.db),
@@ -615,6 +635,7 @@ MsgFamId(d) ==
   IF d.kind = "flat" THEN "F" \o MsgIxStr(d.ix)
   ELSE IF d.kind = "extra" THEN "X" \o (IF d.i < 10 THEN "0" ELSE "") \o ToString(d.i)
   ELSE IF d.kind = "nested" THEN "N" \o (IF d.indef THEN "d" ELSE "c") \o MsgIxStr(<<d.s1, d.s2, d.s3, d.s4, d.s5>>)
+  ELSE IF d.kind = "attr" THEN "A" \o (IF d.i < 10 THEN "0" ELSE "") \o ToString(d.i)
   ELSE IF d.kind = "bytes" THEN "Y" \o (IF d.i < 10 THEN "0" ELSE "") \o ToString(d.i)
   ELSE IF d.kind = "split" THEN "S" \o ToString(d.s) \o "." \o (IF d.at < 10 THEN "0" ELSE "") \o ToString(d.at)
   ELSE "P" \o ToString(d.subj) \o "c" \o ToString(d.cs) \o ":" \o MsgIxStrs(d.cb) \o "d" \o MsgIxStr(d.db)
